@@ -69,6 +69,18 @@ CHECKS = {
          "height index -> data, consensus store height = tip, diff iff block, finalized <= tip) is validated by CrashTrace.tla.",
          "pebble batch atomicity and StrictMem's model of sync are trusted (torn WAL records not modelled); the toy application's state is rebuilt from headers at restart.",
          "crash-point enumeration on the real node over a strict in-memory file system, records validated by a TLA+ trace monitor", "DESIGN.md section 4 C13"),
+ "C06": ("model_checking",
+         "Certificate.tla (on Node.tla) prints, for node states reached by TLC-generated scripts (finality, on-chain aggregate commits, validator-set changes, 4 validators with weights 4/3/2/1), the verdict table of aggregate-commit verification over "
+         "every height 0..tip+1 x every signer subset x {valid, signed for another chain, certificate of another block}, every set of certifying validators, and every single commit with 'may enter the pool'. The harness evaluates the real "
+         "verifyAggregateCommit with real BLS on every row, tampers aggregation bits, feeds single commits through singleCommitValidator (admission soundness) and requires GetAggregateCommit after Certify + gossip to pass the node's own verification.",
+         "blst trusted; chains <= 10 blocks (first 100 heights); pool admission judged for soundness only.",
+         "TLC-generated verdict tables of a TLA+ node/certificate model evaluated on the real Executer with real BLS", "DESIGN.md section 4 C06"),
+ "C14": ("model_checking",
+         "TxPool.tla: abstract pool (all / per-sender lists / processable runs / fee queue) with Add, Remove, ReorgStep as sets of permitted successors (nondeterministic where the statement is silent: eviction victim, evict-or-reject, pending); "
+         "TLC checks index agreement, limits, one tx per (sender, nonce), replacement and gap-free processable runs on the complete reachable graph of 6 small configurations. Trace validation: seeded sequential, interleaved (reorg suspended inside the verifier) "
+         "and concurrent runs on the real TransactionPool record every call with the index snapshot; TxPoolTrace.tla requires every post-state to satisfy the invariants and to be a permitted successor; every call runs under a watchdog (liveness).",
+         "Stub verifier with scripted answers; small transaction universes; concurrent mode judged at quiescence only.",
+         "TLC model checking of TxPool.tla + TLA+ trace validation (monitor) of the real pool with watchdog", "DESIGN.md section 4 C14"),
 }
 NA_REASON = "check not built yet in this round (planned, see DESIGN.md section 4); not claimed until its TLA+ specification and binding exist"
 
